@@ -762,6 +762,9 @@ struct MacroBlock {
     chroma_mode: ChromaMode,
     segmentid: u8,
     coeffs_skipped: bool,
+    /// Whether any block of the macroblock decoded to something other than all-zero
+    /// (decides whether the loop filter runs on the inner sub-block edges).
+    non_zero_coeffs: bool,
 }
 
 /// A Representation of the last decoded video frame
@@ -1711,8 +1714,9 @@ impl<R: Read> Vp8Decoder<R> {
         mb: &MacroBlock,
         mbx: usize,
         p: usize,
-    ) -> Result<[i32; 384], DecodingError> {
+    ) -> Result<([i32; 384], bool), DecodingError> {
         let sindex = mb.segmentid as usize;
+        let mut non_zero = false;
         let mut blocks = [0i32; 384];
         let mut plane = if mb.luma_mode == LumaMode::B { 3 } else { 1 };
 
@@ -1749,6 +1753,7 @@ impl<R: Read> Vp8Decoder<R> {
                 let n = self.read_coefficients(block, p, plane, complexity as usize, dcq, acq)?;
 
                 if block[0] != 0 || n {
+                    non_zero = true;
                     transform::idct4x4(block);
                 }
 
@@ -1777,6 +1782,7 @@ impl<R: Read> Vp8Decoder<R> {
                     let n =
                         self.read_coefficients(block, p, plane, complexity as usize, dcq, acq)?;
                     if block[0] != 0 || n {
+                        non_zero = true;
                         transform::idct4x4(block);
                     }
 
@@ -1788,7 +1794,7 @@ impl<R: Read> Vp8Decoder<R> {
             }
         }
 
-        Ok(blocks)
+        Ok((blocks, non_zero))
     }
 
     /// Does loop filtering on the macroblock
@@ -1872,7 +1878,7 @@ impl<R: Read> Vp8Decoder<R> {
             }
 
             //filter across vertical subblocks in macroblock
-            if mb.luma_mode == LumaMode::B || !mb.coeffs_skipped {
+            if mb.luma_mode == LumaMode::B || mb.non_zero_coeffs {
                 if self.frame.filter_type {
                     for x in (4usize..luma_xlength - 1).step_by(4) {
                         for y in 0..luma_ylength {
@@ -1994,7 +2000,7 @@ impl<R: Read> Vp8Decoder<R> {
             }
 
             //filter across horizontal subblock edges within the macroblock
-            if mb.luma_mode == LumaMode::B || !mb.coeffs_skipped {
+            if mb.luma_mode == LumaMode::B || mb.non_zero_coeffs {
                 if self.frame.filter_type {
                     for y in (4usize..luma_ylength - 1).step_by(4) {
                         for x in 0..luma_xlength {
@@ -2132,9 +2138,11 @@ impl<R: Read> Vp8Decoder<R> {
             self.left = MacroBlock::default();
 
             for mbx in 0..self.mbwidth as usize {
-                let mb = self.read_macroblock_header(mbx)?;
+                let mut mb = self.read_macroblock_header(mbx)?;
                 let blocks = if !mb.coeffs_skipped {
-                    self.read_residual_data(&mb, mbx, p)?
+                    let (blocks, non_zero) = self.read_residual_data(&mb, mbx, p)?;
+                    mb.non_zero_coeffs = non_zero;
+                    blocks
                 } else {
                     if mb.luma_mode != LumaMode::B {
                         self.left.complexity[0] = 0;
